@@ -54,6 +54,8 @@ def run_property(ctx, mask, monitor, signature, streams, nontrivial=None):
                 recipe, _ = X.gen_burst(rng, gen=name)
             elif kw.get('waves'):
                 recipe, _ = X.gen_waves(rng, gen=name)
+            elif kw.get('over_susp'):
+                recipe, _ = X.gen_over_susp(rng, gen=name)
             elif kw.get('overlap'):
                 recipe, _ = X.gen_overlap(rng, gen=name)
             else:
